@@ -78,3 +78,17 @@ Theorem C16_prime :
                (leaves (mz_tree m)).
 Proof. exact prime_follows_configured. Qed.
 Print Assumptions C16_prime.
+
+(* Path.Append / Path.Prepend keep the path's hasher and the order of parts: a path made by any
+   Options / merklizer API (every kind except the package-level NewPath) from `mid`, then
+   Append(post), then Prepend(pre), has the key of the path built in one go under the merklizer's
+   hasher, whatever the default hasher is at either time *)
+Theorem C16_path_build_key :
+  forall (Hd Hd' : hasher) (m : mz) (pk : pkind) (pre mid post : list part),
+  pk <> PKPackage ->
+  path_mt_entry Hd (path_prepend (path_append (mk_path Hd m pk mid) post) pre) =
+  hash_path (mz_hasher m) (pre ++ mid ++ post) /\
+  path_mt_entry Hd' (path_prepend (path_append (mk_path Hd' m pk mid) post) pre) =
+  hash_path (mz_hasher m) (pre ++ mid ++ post).
+Proof. exact path_build_key. Qed.
+Print Assumptions C16_path_build_key.
